@@ -220,7 +220,9 @@ def ray_m(a1, a2, b1, b2):
         return F(0), F(0)
     c = vcross(vsub(a2, a1), vsub(b2, b1))
     ssq = vdot(c, c)
-    return sqrt_double(ssq), ssq
+    import core
+    from geomdl import linalg
+    return core.impl_sqrt(ssq, lambda: linalg.vector_magnitude(qs(c))), ssq
 
 
 def ray_case(kind, a1, a2, b1, b2, tol=None, tags=()):
